@@ -196,6 +196,28 @@ Definition step_lazy (lone : nat -> bool) (enum : tagmap -> tagmap) (p : addr) (
   end.
 Definition run_lazy lone enum p st (sched : list nat) : dstate := fold_left (step_lazy lone enum p) sched st.
 
+(* ---------- the "per-node scratch line" variant, for the refutation witness only ----------
+   line.copyInto(&hn.line): the destination struct at [dst] is overwritten with the fields of [a];
+   its Args array is reused when its capacity suffices (else a fresh one), Tags get a fresh map.
+   The SECOND invocation of a handler node thus receives the address the first one still holds. *)
+Definition copy_into (hp : lheap) (a dst : addr) : res lheap :=
+  l <- get_line hp a ;;
+  arr <- get_args hp (lo_args_at l) ;;
+  if (length arr <? lo_args_len l)%nat then Panic else
+  d <- get_line hp dst ;;
+  darr <- get_args hp (lo_args_at d) ;;
+  let src := firstn (lo_args_len l) arr in
+  let '(hp1, at_) :=
+    if (lo_args_len l <=? length darr)%nat
+    then (lupd hp (lo_args_at d) (OArgs (src ++ skipn (lo_args_len l) darr)), lo_args_at d)
+    else (hp ++ [OArgs src], length hp) in
+  r <- match lo_tags_at l with
+       | None => Ok (hp1, None)
+       | Some ta => m <- get_tags hp ta ;; Ok (hp1 ++ [OTags (copy_tags_enum m)], Some (length hp1))
+       end ;;
+  Ok (lupd (fst r) dst (OLine {| lo_scal := lo_scal l; lo_args_at := at_; lo_args_len := lo_args_len l;
+                                 lo_tags_at := snd r |})).
+
 (* ---------- value equality and the property predicate ---------- *)
 Definition lval_eqb (a b : lval) : bool :=
   list_beq (v_scal a) (v_scal b) && list_beq (v_args a) (v_args b) && opt_tags_eqb (v_tags a) (v_tags b).
